@@ -802,6 +802,29 @@ func runC15(c *Ctx) {
 						}
 					}
 				}
+				// membership in a package-level set of names: `_, ok := skipped[name]; ok`, skipped.has(name), slices.Contains
+				if !decided {
+					var where ast.Node = pc.Expr
+					if id, ok := ast.Unparen(pc.Expr).(*ast.Ident); ok {
+						for _, st := range pth.Trace {
+							if as, ok := st.(*ast.AssignStmt); ok && len(as.Lhs) == 2 && len(as.Rhs) == 1 {
+								if lid, ok := as.Lhs[1].(*ast.Ident); ok && sp.TypesInfo.ObjectOf(lid) == sp.TypesInfo.ObjectOf(id) {
+									where = as.Rhs[0]
+								}
+							}
+						}
+					}
+					for _, lk := range tableLookupsIn(sp.TypesInfo, sp.Types, where) {
+						if init := inits[lk.Table]; init != nil {
+							if names, ok := stringSetLiteral(sp.TypesInfo, init); ok {
+								for _, nm := range names {
+									eqSet[nm] = true
+								}
+								decided = true
+							}
+						}
+					}
+				}
 				if !decided {
 					okShape = false
 					decided = true
